@@ -728,6 +728,14 @@ func (w *world) compareDup(req *request, d *delivery) {
 	w.dupsCompared++
 	if bytes.Equal(req.cmpBytes(can), req.cmpBytes(d)) {
 		w.k.Probe("retransmission-same-reply")
+		if st, ev := statusAt(can.res, req.base+1); ev && st == nfsv4.NFS4ERR_DENIED {
+			switch req.kind {
+			case kLockExist:
+				w.k.Probe("denied-lock-of-existing-lock-owner-retransmitted-same-reply")
+			case kLockNew:
+				w.k.Probe("denied-first-lock-retransmitted-same-reply")
+			}
+		}
 		if d.overlap {
 			w.k.Probe("inflight-duplicate-got-original-result")
 		}
